@@ -52,7 +52,14 @@ type c13Act struct {
 	I  int    `json:"i"`
 }
 
+type c13MOp struct {
+	T  int    `json:"t"`
+	Op string `json:"op"` // RLock | RUnlock | Lock | Unlock
+}
+
 type c13Case struct {
+	N    int      `json:"n"`
+	MOps []c13MOp `json:"mops"`
 	Kind    string    `json:"kind"`
 	Reqs    []c13Req  `json:"reqs"`
 	Reloads int       `json:"reloads"`
@@ -70,7 +77,13 @@ type c13ReqObs struct {
 	Sent  bool   `json:"sent"`
 }
 
+type c13MObs struct {
+	Code    int    `json:"code"` // 0 issued, 1 busy, 2 refused by the thread (unlock of a lock it does not hold)
+	Blocked []bool `json:"blocked"`
+}
+
 type c13Res struct {
+	MObs []c13MObs `json:"mobs"`
 	Sels        [][2]int    `json:"sels"`  // depth: (v6?, reader count seen inside Select)
 	Final       int         `json:"final"` // reader count after the call returned
 	Panic       string      `json:"panic"`
@@ -503,6 +516,130 @@ func c13Stress(c c13Case, dir string) (res c13Res) {
 	return
 }
 
+// one execution of a script of lock calls on a fresh sync.RWMutex
+func c13RwmOnce(c c13Case) []c13MObs {
+	var mu sync.RWMutex
+	type msg struct {
+		op  string
+		ack chan int
+	}
+	chans := make([]chan msg, c.N)
+	inCall := make([]atomic.Bool, c.N)
+	for i := range chans {
+		chans[i] = make(chan msg)
+		go func(i int) {
+			rdepth, whold := 0, false
+			for m := range chans[i] {
+				switch m.op {
+				case "RUnlock":
+					if rdepth == 0 {
+						m.ack <- 2
+						continue
+					}
+				case "Unlock":
+					if !whold {
+						m.ack <- 2
+						continue
+					}
+				}
+				inCall[i].Store(true)
+				m.ack <- 0
+				switch m.op {
+				case "RLock":
+					mu.RLock()
+					rdepth++
+				case "RUnlock":
+					mu.RUnlock()
+					rdepth--
+				case "Lock":
+					mu.Lock()
+					whold = true
+				case "Unlock":
+					mu.Unlock()
+					whold = false
+				}
+				inCall[i].Store(false)
+			}
+		}(i)
+	}
+	snapshot := func() []bool {
+		b := make([]bool, c.N)
+		for i := range b {
+			b[i] = inCall[i].Load()
+		}
+		return b
+	}
+	settle := func() []bool {
+		// wait until the set of threads inside a call has been stable for a while
+		last := snapshot()
+		stable := time.Now()
+		t0 := time.Now()
+		for time.Since(t0) < 60*time.Millisecond && time.Since(stable) < 4*time.Millisecond {
+			time.Sleep(100 * time.Microsecond)
+			cur := snapshot()
+			same := true
+			any := false
+			for i := range cur {
+				if cur[i] != last[i] {
+					same = false
+				}
+				any = any || cur[i]
+			}
+			if !same {
+				last, stable = cur, time.Now()
+			}
+			if !any {
+				break
+			}
+		}
+		return last
+	}
+	var out []c13MObs
+	for _, o := range c.MOps {
+		if o.T >= c.N {
+			continue
+		}
+		if inCall[o.T].Load() {
+			out = append(out, c13MObs{Code: 1, Blocked: settle()})
+			continue
+		}
+		ack := make(chan int, 1)
+		chans[o.T] <- msg{o.Op, ack}
+		code := <-ack
+		out = append(out, c13MObs{Code: code, Blocked: settle()})
+	}
+	// threads blocked for good stay behind; the others are released
+	for i := range chans {
+		if !inCall[i].Load() {
+			close(chans[i])
+		}
+	}
+	return out
+}
+
+// a thread counts as blocked (busy) only if it was in every one of three executions: a goroutine
+// that was merely slow in one execution is not mistaken for a blocked one
+func c13Rwm(c c13Case) (res c13Res) {
+	runs := [][]c13MObs{c13RwmOnce(c), c13RwmOnce(c), c13RwmOnce(c)}
+	res.Completed = true
+	for k := range runs[0] {
+		o := c13MObs{Code: runs[0][k].Code, Blocked: append([]bool{}, runs[0][k].Blocked...)}
+		for _, r := range runs[1:] {
+			if k >= len(r) {
+				continue
+			}
+			if r[k].Code != 1 && o.Code == 1 || (r[k].Code == 0 && o.Code != 0) {
+				o.Code = r[k].Code
+			}
+			for i := range o.Blocked {
+				o.Blocked[i] = o.Blocked[i] && r[k].Blocked[i]
+			}
+		}
+		res.MObs = append(res.MObs, o)
+	}
+	return
+}
+
 func TestVerifC13(t *testing.T) {
 	raw, err := os.ReadFile(os.Getenv("VERIF_CASES"))
 	if err != nil {
@@ -524,6 +661,8 @@ func TestVerifC13(t *testing.T) {
 			res[i] = c13Sched(c, dir)
 		case "stress":
 			res[i] = c13Stress(c, dir)
+		case "rwm":
+			res[i] = c13Rwm(c)
 		}
 	}
 	out, _ := json.Marshal(res)
